@@ -77,6 +77,7 @@ void cubic_spline_predict(dvector *x_, matrix *S, dvector *y_pred)
   size_t i;
   size_t j;
   size_t n;
+  int found;
   n = S->row-1;
   DVectorResize(y_pred, x_->size);
   /* Now interpolate using the equations:
@@ -86,10 +87,12 @@ void cubic_spline_predict(dvector *x_, matrix *S, dvector *y_pred)
   for(i = 0; i < x_->size; i++){
     double x = x_->data[i];
     double y = MISSING;
+    found = 0;
     for(j = 0; j < n; j++){
       double xi = S->data[j][0];
       if(x >= xi && x <= S->data[j+1][0]){
         y = S->data[j][1] + S->data[j][2]*(x-xi) + S->data[j][3]*(x-xi)*(x-xi) + S->data[j][4]*(x-xi)*(x-xi)*(x-xi);
+        found = 1;
         break;
       }
       else{
@@ -97,12 +100,13 @@ void cubic_spline_predict(dvector *x_, matrix *S, dvector *y_pred)
       }
     }
 
-    /* if y is still missing,
+    /* if no interval held x,
      * this means that we are extrapolating over y.
      * Then we will use the last equation
      * with the last row of coefficients in S
+     * (a flag, not the value of y: a spline may well pass through the value of MISSING)
      */
-    if(FLOAT_EQ(y, MISSING, 1e-2)){
+    if(found == 0){
       double xi = S->data[n][0];
       j = S->row-1;
       y = S->data[j][1] + S->data[j][2]*(x-xi) + S->data[j][3]*(x-xi)*(x-xi) + S->data[j][4]*(x-xi)*(x-xi)*(x-xi);
